@@ -170,8 +170,475 @@ def file_mask(L, n, m, sn):
 
 
 # ----------------------------------------------------------------------------------------------
+# translator: the string interning of the current dr_dump.c -> find_ir / store_ir (coq/DagFile/InternModel.v)
+# ----------------------------------------------------------------------------------------------
+
+_TOK = re.compile(r"""\s*("(?:\\.|[^"\\])*"|'(?:\\.|[^'\\])*'|[A-Za-z_]\w*|\d+\w*|->|\+\+|--|==|!=|<=|>=|&&|\|\||\+=|-=|<<|>>|.)""", re.S)
+
+
+def c_tokens(txt):
+    return [t for t in _TOK.findall(txt) if t.strip()]
+
+
+def _match(toks, i, op, cl):
+    d = 0
+    while i < len(toks):
+        if toks[i] == op:
+            d += 1
+        elif toks[i] == cl:
+            d -= 1
+            if d == 0:
+                return i
+        i += 1
+    raise ValueError("unbalanced " + op)
+
+
+def _stmt(toks, i):
+    """parse one statement starting at toks[i]; returns (stmt, next index)"""
+    t = toks[i]
+    if t == "{":
+        j = _match(toks, i, "{", "}")
+        body, k = [], i + 1
+        while k < j:
+            st, k = _stmt(toks, k)
+            body.append(st)
+        return ("block", body), j + 1
+    if t == "if":
+        j = _match(toks, i + 1, "(", ")")
+        cond = toks[i + 2:j]
+        th, k = _stmt(toks, j + 1)
+        el = None
+        if k < len(toks) and toks[k] == "else":
+            el, k = _stmt(toks, k + 1)
+        return ("if", cond, th, el), k
+    if t == "for":
+        j = _match(toks, i + 1, "(", ")")
+        parts, cur, d = [], [], 0
+        for x in toks[i + 2:j]:
+            if x in "([{":
+                d += 1
+            elif x in ")]}":
+                d -= 1
+            if x == ";" and d == 0:
+                parts.append(cur); cur = []
+            else:
+                cur.append(x)
+        parts.append(cur)
+        body, k = _stmt(toks, j + 1)
+        return ("for", parts, body), k
+    if t == "while":
+        j = _match(toks, i + 1, "(", ")")
+        body, k = _stmt(toks, j + 1)
+        return ("while", toks[i + 2:j], body), k
+    if t == "do":
+        body, k = _stmt(toks, i + 1)
+        j = _match(toks, k + 1, "(", ")")
+        return ("do", body, toks[k + 2:j]), j + 2
+    if t in ("continue", "break"):
+        return (t,), i + 2
+    if t == "goto":
+        return ("goto",), i + 3
+    # return / expression / declaration: up to the ';' at nesting depth 0
+    d, j = 0, i
+    while j < len(toks):
+        if toks[j] in "([{":
+            d += 1
+        elif toks[j] in ")]}":
+            d -= 1
+        elif toks[j] == ";" and d == 0:
+            break
+        j += 1
+    if t == "return":
+        return ("return", toks[i + 1:j]), j + 1
+    return ("expr", toks[i:j]), j + 1
+
+
+def c_function(txt, name):
+    """(parameter names, statements) of a function of the preprocessed text, or None"""
+    m = re.search(r"\b%s\s*\(([^;{)]*)\)\s*\{" % re.escape(name), txt)
+    if not m:
+        return None
+    i, depth = m.end(), 1
+    while i < len(txt) and depth:
+        depth += {"{": 1, "}": -1}.get(txt[i], 0)
+        i += 1
+    params = [re.findall(r"[A-Za-z_]\w*", p)[-1] for p in m.group(1).split(",") if re.findall(r"[A-Za-z_]\w*", p)]
+    toks = c_tokens("{" + txt[m.end():i])
+    st, _ = _stmt(toks, 0)
+    return params, st[1]
+
+
+def _strip(toks):
+    while len(toks) >= 2 and toks[0] == "(" and _match(toks, 0, "(", ")") == len(toks) - 1:
+        toks = toks[1:-1]
+    return toks
+
+
+def _split_and(toks):
+    toks = _strip(toks)
+    parts, cur, d = [], [], 0
+    for x in toks:
+        if x in "([{":
+            d += 1
+        elif x in ")]}":
+            d -= 1
+        if x == "&&" and d == 0:
+            parts.append(cur); cur = []
+        else:
+            cur.append(x)
+    parts.append(cur)
+    if len(parts) == 1:
+        return [toks]
+    res = []
+    for p_ in parts:
+        res += _split_and(p_)
+    return res
+
+
+def _always_leaves(st):
+    k = st[0]
+    if k in ("continue", "return"):
+        return True
+    if k == "block":
+        return any(_always_leaves(x) for x in st[1])
+    if k == "if":
+        return st[3] is not None and _always_leaves(st[2]) and _always_leaves(st[3])
+    return False
+
+
+class InternIR:
+    pass
+
+
+def translate_intern(txt):
+    """reads dr_string_table_find / _append / _flatten of the preprocessed dr_dump.c"""
+    R = InternIR()
+    R.problems = []
+    R.exits_src = []
+    fa = c_function(txt, "dr_string_table_append")
+    ff = c_function(txt, "dr_string_table_find")
+    fl = c_function(txt, "dr_string_table_flatten")
+    if not (fa and ff and fl):
+        R.problems.append("dr_string_table_find / _append / _flatten not found in dr_dump.c")
+        R.find = (False, False, False, [])
+        R.store = ("CopyOther", "CopyOther", False, False)
+        return R
+    # ---- append: which field holds the string, which fields hold its length
+    aparams, abody = fa
+    akey = aparams[-1]
+    flat = []
+
+    def flatten_stmts(sts):
+        for st in sts:
+            if st[0] == "block":
+                flatten_stmts(st[1])
+            elif st[0] == "if":
+                flatten_stmts([st[2]] + ([st[3]] if st[3] else []))
+            elif st[0] in ("for", "while"):
+                flatten_stmts([st[2]])
+            else:
+                flat.append(st)
+    flatten_stmts(abody)
+    sfield, lenfields, akind = None, set(), "CopyOther"
+    for st in flat:
+        if st[0] != "expr":
+            continue
+        j = "".join(st[1])
+        m = re.match(r"^(\w+)->(\w+)=%s$" % re.escape(akey), j)
+        if m:
+            sfield, akind = m.group(2), "KeepPointer"
+        m = re.match(r"^(\w+)->(\w+)=strdup\(%s\)$" % re.escape(akey), j) or re.match(r"^strcpy\((\w+)->(\w+),%s\)$" % re.escape(akey), j)
+        if m:
+            sfield, akind = m.group(2), "CopyWithTerminator"
+        m = re.match(r"^(\w+)->(\w+)=strlen\(%s\)$" % re.escape(akey), j)
+        if m:
+            lenfields.add(m.group(2))
+    if sfield is None:
+        R.problems.append("dr_string_table_append: no statement stores the whole key (cell->s = s, strdup, strcpy)")
+        sfield = "s"
+    # ---- find
+    fparams, fbody = ff
+    tvar, key = fparams[0], fparams[-1]
+    loops = [(k, st) for k, st in enumerate(fbody) if st[0] in ("for", "while", "do")]
+    loop_all = index_ok = notfound_ok = False
+    exits = []
+    if len(loops) != 1 or loops[0][1][0] != "for":
+        R.problems.append("dr_string_table_find: expected exactly one for loop over the cells")
+    else:
+        li, (_, parts, body) = loops[0]
+        init, cond, step = ("".join(x) for x in (parts + [[], [], []])[:3])
+        m = re.match(r"^(\w+)=%s->head$" % re.escape(tvar), init)
+        X = m.group(1) if m else None
+        loop_all = bool(X) and cond in (X, X + "!=0", "0!=" + X, X + "!=((void*)0)") and step == "%s=%s->next" % (X, X)
+        if not loop_all:
+            R.problems.append("dr_string_table_find: the loop is not `for (c = t->head; c; c = c->next)`")
+        X = X or "c"
+        # local lengths of the key computed before the loop
+        keylens = {"strlen(%s)" % key}
+        ivar = None
+        for st in fbody[:li]:
+            if st[0] == "expr":
+                tk = st[1]
+                if len(tk) >= 6 and tk[-5:] == ["=", "strlen", "(", key, ")"] and re.match(r"^[A-Za-z_]\w*$", tk[-6]):
+                    keylens.add(tk[-6])
+                if len(tk) >= 3 and tk[-2:] == ["=", "0"] and re.match(r"^[A-Za-z_]\w*$", tk[-3]):
+                    ivar = tk[-3]
+        celllens = {"strlen(%s->%s)" % (X, sfield)} | {"%s->%s" % (X, f) for f in lenfields}
+        cs = "%s->%s" % (X, sfield)
+        helpers = {}
+
+        def classify(toks, depth=0):
+            """list of atoms for one (positive) condition"""
+            res = []
+            for a in _split_and(toks):
+                j = "".join(_strip(a))
+                neg = False
+                core = j
+                m = re.match(r"^!(.*)$", j)
+                if m:
+                    neg, core = True, "".join(_strip(c_tokens(m.group(1))))
+                m = re.match(r"^(.*)==0$", j) or re.match(r"^0==(.*)$", j)
+                if m and not neg:
+                    neg, core = True, "".join(_strip(c_tokens(m.group(1))))
+                kind = None
+                if neg:
+                    m = re.match(r"^(strcmp|strncmp|memcmp)\((.*)\)$", core)
+                    if m:
+                        args = _split_args(c_tokens(m.group(2)))
+                        if len(args) >= 2 and {args[0], args[1]} == {cs, key}:
+                            if m.group(1) == "strcmp" and len(args) == 2:
+                                kind = "AStrcmp"
+                            elif len(args) == 3:
+                                L = args[2]
+                                lens = keylens | celllens
+                                if any(L in (x + "+1", "1+" + x, "(" + x + ")+1") for x in lens):
+                                    kind = "AStrcmp"
+                                elif L in lens:
+                                    kind = "AMemcmpLen"
+                else:
+                    m = re.match(r"^(.*)==(.*)$", j)
+                    if m and ((m.group(1) in celllens and m.group(2) in keylens) or (m.group(2) in celllens and m.group(1) in keylens)):
+                        kind = "ALenEq"
+                if kind is None and depth < 2:
+                    # a helper of the same file whose body is a single return: inline it
+                    m = re.match(r"^(!?)(\w+)\((.*)\)(==0|!=0)?$", j)
+                    if m and m.group(2) not in ("strcmp", "strncmp", "memcmp", "strlen"):
+                        h = helpers.get(m.group(2)) or c_function(txt, m.group(2))
+                        helpers[m.group(2)] = h
+                        if h and len(h[1]) == 1 and h[1][0][0] == "return":
+                            args = _split_args(c_tokens(m.group(3)))
+                            if len(args) == len(h[0]):
+                                sub = []
+                                for tk in h[1][0][1]:
+                                    sub += c_tokens(args[h[0].index(tk)]) if tk in h[0] else [tk]
+                                expr = ["("] + sub + [")"]
+                                if m.group(1) == "!" or m.group(4) == "==0":
+                                    expr = ["!"] + expr
+                                if not (m.group(1) == "!" and m.group(4) == "==0"):
+                                    res += classify(expr, depth + 1)
+                                    continue
+                res.append((kind or "APre", j))
+            return res
+
+        def walk(sts, conds):
+            nonlocal loop_all
+            for st in sts:
+                k = st[0]
+                if k == "block":
+                    walk(st[1], conds)
+                elif k == "if":
+                    walk([st[2]], conds + [(st[1], True)])
+                    if st[3] is not None:
+                        walk([st[3]], conds + [(st[1], False)])
+                    if _always_leaves(st[2]):
+                        conds = conds + [(st[1], False)]
+                    elif st[3] is not None and _always_leaves(st[3]):
+                        conds = conds + [(st[1], True)]
+                elif k == "return":
+                    atoms = []
+                    for c_, pos in conds:
+                        atoms += classify(c_) if pos else [("APre", "!(" + "".join(c_) + ")")]
+                    exits.append(("".join(st[1]), atoms))
+                elif k in ("break", "goto"):
+                    loop_all = False
+                    R.problems.append("dr_string_table_find: `%s` inside the loop over the cells" % k)
+                elif k in ("for", "while", "do"):
+                    inner = []
+                    _collect_returns(st, inner)
+                    if inner:
+                        loop_all = False
+                        R.problems.append("dr_string_table_find: return inside a nested loop")
+        body_sts = body[1] if body[0] == "block" else [body]
+        walk(body_sts, [])
+        # the index
+        last = body_sts[-1] if body_sts else ("expr", [])
+        inc = "".join(last[1]) if last[0] == "expr" else ""
+        mods = 0
+        jbody = "".join(_all_tokens(body))
+        if ivar:
+            mods = len(re.findall(r"(?<![\w>])%s(\+\+|--|\+=|-=|=(?!=))|(\+\+|--)%s(?!\w)" % (ivar, ivar), jbody))
+        index_ok = bool(ivar) and inc in (ivar + "++", "++" + ivar, ivar + "+=1") and mods == 1 and \
+            all(e[0] == ivar for e in exits)
+        if not index_ok:
+            R.problems.append("dr_string_table_find: the returned index is not a counter of the cells passed")
+        tail = [st for st in fbody[li + 1:] if st[0] == "return"]
+        notfound_ok = bool(ivar) and len(tail) == 1 and "".join(tail[0][1]) == ivar and fbody[-1] is tail[0] and \
+            not any(st[0] == "return" for st in fbody[:li])
+        if not notfound_ok:
+            R.problems.append("dr_string_table_find: the not-found exit does not return the number of cells")
+    pre_ids = {}
+    ir_exits = []
+    for _e, atoms in exits:
+        row = []
+        for kind, src in atoms:
+            if kind == "APre":
+                row.append("APre %d" % pre_ids.setdefault(src, len(pre_ids)))
+            else:
+                row.append(kind)
+        ir_exits.append(row)
+        R.exits_src.append([src for _k, src in atoms])
+        has_full = any(k == "AStrcmp" for k, _ in atoms) or (any(k == "ALenEq" for k, _ in atoms) and any(k == "AMemcmpLen" for k, _ in atoms))
+        if not has_full:
+            R.problems.append("dr_string_table_find: a cell is accepted (`return`) under `%s` without a comparison of the whole strings"
+                              % " && ".join(src for _k, src in atoms))
+    if not exits:
+        R.problems.append("dr_string_table_find: no found exit inside the loop")
+    R.find = (loop_all, index_ok, notfound_ok, ir_exits)
+    # ---- flatten
+    lparams, lbody = fl
+    flat.clear()
+    flatten_stmts(lbody)
+    js = ["".join(st[1]) for st in flat if st[0] == "expr"]
+    lenrx = r"(?:strlen\(\w+->%s\)|\w+->(?:%s))" % (re.escape(sfield), "|".join(map(re.escape, lenfields)) or "\\0")
+    fkind = "CopyOther"
+    for j in js:
+        if re.match(r"^strcpy\(\w+,\w+->%s\)$" % re.escape(sfield), j) or \
+           re.match(r"^memcpy\(\w+,\w+->%s,(?:%s\+1|1\+%s)\)$" % (re.escape(sfield), lenrx, lenrx), j):
+            fkind = "CopyWithTerminator"
+    adv = any(re.match(r"^\w+\+=(?:%s\+1|1\+%s)$" % (lenrx, lenrx), j) and not j.startswith("str_bytes") for j in js) and \
+        any(re.match(r"^\w+\[\w+\]=\w+-\w+$", j) for j in js)
+    byt = any(re.match(r"^str_bytes\+=(?:%s\+1|1\+%s)$" % (lenrx, lenrx), j) for j in js)
+    if fkind != "CopyWithTerminator":
+        R.problems.append("dr_string_table_flatten: the string is not copied with its terminator (strcpy / memcpy of length + 1)")
+    if not adv:
+        R.problems.append("dr_string_table_flatten: write pointer / offsets do not advance by strlen + 1")
+    if not byt:
+        R.problems.append("dr_string_table_flatten: str_bytes does not count strlen + 1 per string")
+    R.store = (akind, fkind, adv, byt)
+    return R
+
+
+def _split_args(toks):
+    parts, cur, d = [], [], 0
+    for x in toks:
+        if x in "([{":
+            d += 1
+        elif x in ")]}":
+            d -= 1
+        if x == "," and d == 0:
+            parts.append("".join(cur)); cur = []
+        else:
+            cur.append(x)
+    parts.append("".join(cur))
+    return parts
+
+
+def _collect_returns(st, acc):
+    k = st[0]
+    if k == "return":
+        acc.append(st)
+    elif k == "block":
+        for x in st[1]:
+            _collect_returns(x, acc)
+    elif k == "if":
+        _collect_returns(st[2], acc)
+        if st[3]:
+            _collect_returns(st[3], acc)
+    elif k in ("for", "while"):
+        _collect_returns(st[2], acc)
+    elif k == "do":
+        _collect_returns(st[1], acc)
+
+
+def _all_tokens(st):
+    k = st[0]
+    if k in ("expr", "return"):
+        return list(st[1]) + [";"]
+    if k == "block":
+        return [t for x in st[1] for t in _all_tokens(x)]
+    if k == "if":
+        return list(st[1]) + _all_tokens(st[2]) + (_all_tokens(st[3]) if st[3] else [])
+    if k == "for":
+        return [t for part in st[1] for t in part] + _all_tokens(st[2])
+    if k == "while":
+        return list(st[1]) + _all_tokens(st[2])
+    if k == "do":
+        return _all_tokens(st[1]) + list(st[2])
+    return []
+
+
+def gen_intern_v(ctx):
+    """translate the interning code of the current tree, write build/C19/gen/DrIntern.v, evaluate the checkers.
+    Returns (ok, messages, log)"""
+    src = os.path.join(prof_dir(), "dr_dump.c")
+    rc, out = vlib.sh("gcc -E -P -DMYTH_VERIF -I%s %s 2>/dev/null" % (prof_dir(), src), timeout=120)
+    if rc != 0:
+        return False, ["cannot preprocess dr_dump.c"], out[-500:]
+    try:
+        R = translate_intern(out)
+    except (ValueError, IndexError, KeyError) as e:
+        return False, ["the interning code of dr_dump.c could not be parsed (%s)" % e], ""
+    la, io, nf, exits = R.find
+    b = lambda x: "true" if x else "false"
+    gd = os.path.join(ctx.dir, "gen")
+    os.makedirs(gd, exist_ok=True)
+    txt = "\n".join([
+        "(* GENERATED by tools/props/c19.py from src/profiler/dr_dump.c of the current tree - do not edit *)",
+        "From Coq Require Import ZArith List Bool.",
+        "From MT Require Import DagFile.FlattenModel DagFile.InternModel DagFile.InternProofs.",
+        "Import ListNotations.",
+        "(* found exits of dr_string_table_find and their guards, as in the source:",
+        "   %s *)" % " | ".join(" && ".join(x) for x in R.exits_src).replace("*)", "* )"),
+        "Definition cur_find : find_ir := mk_find_ir %s %s %s [%s]." % (b(la), b(io), b(nf), "; ".join("[" + "; ".join(r) + "]" for r in exits)),
+        "Definition cur_store : store_ir := mk_store_ir %s %s %s %s." % (R.store[0], R.store[1], b(R.store[2]), b(R.store[3])),
+        "Lemma cur_find_ok : find_ok cur_find = true.",
+        "Proof. vm_compute. reflexivity. Qed.",
+        "Lemma cur_store_ok : store_ok cur_store = true.",
+        "Proof. vm_compute. reflexivity. Qed.",
+        "Theorem C19_intern_injective_current : forall o, (forall k x, o k x x = true) ->",
+        "  forall tbl s s', NoDup tbl ->",
+        "  let '(t1, i) := intern_sem cur_find o tbl s in let '(t2, j) := intern_sem cur_find o t1 s' in",
+        "  (i = j <-> s = s') /\\ NoDup t2.",
+        "Proof. exact (fun o => intern_injective cur_find o cur_find_ok). Qed.",
+        "Print Assumptions C19_intern_injective_current.", ""])
+    p = os.path.join(gd, "DrIntern.v")
+    open(p, "w").write(txt)
+    with vlib.Lock("coq"):
+        rc, log = vlib.sh(["coqc", "-Q", vlib.COQ, "MT", "-Q", gd, "C19Gen", p], cwd=gd, timeout=600)
+    ok = rc == 0 and "Closed under the global context" in log
+    msgs = list(R.problems)
+    if not ok and not msgs:
+        msgs.append("find_ok / store_ok evaluate to false on the translated interning code")
+    return ok, msgs, log
+
+
+# ----------------------------------------------------------------------------------------------
 # generators
 # ----------------------------------------------------------------------------------------------
+
+# pairs of distinct file names with equal value under common string hashes (computed offline):
+#   djb2 h*33+c (also mod 2^32/2^64): c2' = c2 - 33*(c1'-c1);  Java / K&R h*31+c likewise with 31;
+#   FNV-1a 32 and sdbm 32: found by a birthday search;  equal length, first and last character, sum and xor of
+#   bytes: transpositions
+HASH_COLLISIONS = [
+    ("solver/blk1R.c", "solver/blk21.c"), ("xaz.c", "xbY.c"), ("src/abz", "src/acY"),      # djb2
+    ("xay.c", "xbZ.c"), ("Aa", "BB"), ("dir/AaAa.c", "dir/BBBB.c"),                       # h*31+c
+    ("kmtzx.c", "k31cd.c"),                                                                # FNV-1a 32
+    ("kac0pq.c", "kqan0a.c"),                                                              # sdbm 32
+    ("ab.c", "ba.c"), ("x12y.h", "x21y.h"), ("main_ab.c", "main_ba.c"),                    # length, first/last, sum, xor
+    ("aXb", "aYb"),                                                                        # length, first/last
+]
+
 
 def gen_names(r, nf):
     """nf distinct file names.  Half of the runs draw from families in which one name is a proper prefix of
@@ -184,6 +651,12 @@ def gen_names(r, nf):
             seen.add(s)
             names.append(s)
     prefixy = r.chance(1, 2)
+    if nf >= 2 and r.chance(1, 3):
+        # two distinct names that collide under a common string digest
+        a, b = r.choice(HASH_COLLISIONS)
+        if r.chance(1, 2):
+            a, b = b, a
+        add(a); add(b)
     while len(names) < nf:
         k = r.below(8 if prefixy else 6)
         if k == 0:
@@ -794,6 +1267,7 @@ def run(ctx):
     layout_line = get_layout(exe)
     L = parse_layout(layout_line)
     gen_ok, gen_log = gen_layout_v(ctx, L)
+    int_ok, int_msgs, int_log = gen_intern_v(ctx)
     n = 170 if not ctx.thorough else 2500
     cases, metas = [], []
     cid = 0
@@ -828,9 +1302,12 @@ def run(ctx):
         "harness/c19_dump.c: serial simulator of the dr_* API with explicit worker ids and the virtual clock hook "
         "(g_dr_verif_clock); its own walker prints the recorded in-memory tree; the file is re-read by a fresh process image",
         "layout probe (sizeof/offsetof/signedness printed by harness/c19_dump --layout) and the generated build/C19/gen/DrLayout.v",
+        "interning translator in tools/props/c19.py (gcc -E -P of dr_dump.c, C-subset statement parser, classification of the "
+        "conditions guarding each found exit of dr_string_table_find; copy statements of _append / _flatten) and build/C19/gen/DrIntern.v",
         "modelled, not verified: fwrite/read/mmap themselves; qsort (a sorted permutation); the priority queue of the replay "
         "(any choice order); byte padding inside structs is masked"]
-    report(ctx, failing, diffs, broken, log, gen_ok, gen_log, exe, drv, layout_line, L)
+    ctx.cov["correspondence"]["interning_translated"] = {"find_ok_and_store_ok": int_ok, "messages": int_msgs}
+    report(ctx, failing, diffs, broken, log, gen_ok, gen_log, exe, drv, layout_line, L, int_ok, int_msgs, int_log)
     ctx.cov["evaluations"] = len(cases)
     ctx.cov["distinct_nontrivial"] = len(set(c for _, c in cases)) - dist.get("depth:0", 0)
     ctx.cov["hypotheses_evaluated_on_every_recorded_tree"] = (
@@ -852,7 +1329,7 @@ def run(ctx):
         "C19_replay: the event queue hands out pending events in any order (the binary heap of chronological.c is one such order)"])
 
 
-def report(ctx, failing, diffs, broken, log, gen_ok, gen_log, exe, drv, layout_line, L):
+def report(ctx, failing, diffs, broken, log, gen_ok, gen_log, exe, drv, layout_line, L, int_ok=True, int_msgs=(), int_log=""):
     if failing:
         cid, cl, msg, _ = failing[0]
         ctx.violation("oracle", msg, {"case": cl, "observed": msg, "expected": "see property C19", "level": "library",
@@ -866,6 +1343,8 @@ def report(ctx, failing, diffs, broken, log, gen_ok, gen_log, exe, drv, layout_l
         problems.append("theorem(s) no longer check: " + ", ".join(broken))
     if not gen_ok:
         problems.append("the regenerated layout no longer satisfies layout_wf / the enum constants changed")
+    if not int_ok:
+        problems.append("string interning read off dr_dump.c fails its checker: " + "; ".join(int_msgs)[:300])
     if not problems:
         return
     # something broke without a failing input at hand: search for one (more programs, oracle only)
@@ -891,6 +1370,12 @@ def report(ctx, failing, diffs, broken, log, gen_ok, gen_log, exe, drv, layout_l
     if broken:
         ctx.violation("proof", "theorem(s) no longer check: " + ", ".join(broken),
                       {"theorem_or_correspondence": ", ".join(broken), "log": getattr(ctx, "proof_log", log[-3000:])}, found=False)
+    if not int_ok:
+        ctx.violation("generated-data", "string interning of the current dr_dump.c is not shown injective on contents: " + "; ".join(int_msgs)[:600],
+                      {"theorem_or_correspondence": "build/C19/gen/DrIntern.v: cur_find_ok / cur_store_ok (find_ok, store_ok of "
+                                                    "coq/DagFile/InternModel.v) on the code translated from dr_string_table_find / _append / _flatten; "
+                                                    "hypothesis of C19_intern_injective",
+                       "functions": [m.split(":")[0] for m in int_msgs], "messages": list(int_msgs), "log": int_log[-2000:]}, found=False)
     if not gen_ok:
         ctx.violation("generated-data", "the layout regenerated from the current headers fails its checker (layout_wf / enum constants / round-trip instance)",
                       {"theorem_or_correspondence": "build/C19/gen/DrLayout.v: cur_layout_wf, cur_enums_ok, C19_roundtrip_current",
